@@ -27,7 +27,7 @@ MIN_KEYS = 60
 REQUIRED = [
     "reorient:geometries", "reorient:judged", "reorient:input-rotation", "reorient:input-mirrored",
     "reorient:canonical-48-of-48", "reorient:jitter:none", "reorient:jitter:large", "reorient:angle:15-25",
-    "reorient:angle:25-40", "reorient:angle:40-50",
+    "reorient:angle:25-40", "reorient:angle:40-50", "reorient:long-lived-reorienter", "mesh:re-assembled-between-queries",
     "sphere:judged", "sphere:nonempty-proper-subset", "sphere:default-radius", "sphere:default-radius:hit",
     "sphere:default-radius:miss", "sphere:ratio:0.99", "sphere:ratio:1.01", "sphere:exact-boundary-vertex",
     "plane:judged", "plane:through-0", "plane:through-3+", "plane:offset-inside-tolerance",
@@ -168,6 +168,22 @@ def run_reorient(ctx, case):
     tol = 1e-9 * (1 + float(np.max(np.abs(base))))
     seen = {}
     where = f"pts={case['pts']} observer={observer} ceiling={ceiling}"
+    # history: one long-lived reorienter for all 48 inputs (as a script that re-orients many blocks does): it is created from
+    # float arrays the caller goes on using, and it has looked at another block - on the far side of the observer - before
+    shared = None
+    if int(abs(base[0][0]) * 1e6) % 2 == 0:
+        obs_arr, ceil_arr = np.array(observer, dtype=float), np.array(ceiling, dtype=float)
+        shared = ViewpointReorienter(obs_arr, ceil_arr)
+        obs_arr += 1000.0
+        ceil_arr -= 777.0
+        centre0 = base.mean(axis=0)
+        far = 2 * np.array(observer, dtype=float) - centre0 + np.array(ceiling, dtype=float) - centre0
+        decoy = geom.arr(hexconv.CORNER) * float(np.linalg.norm(base[0] - centre0)) + far
+        try:
+            shared.reorient(Loft(Face(decoy[:4]), Face(decoy[4:])))
+        except Exception:  # noqa: BLE001  (the decoy is not judged)
+            pass
+        ctx.count("reorient:long-lived-reorienter")
     for cls, perms in (("rotation", hexconv.ROTATIONS), ("mirrored", hexconv.MIRRORED)):
         for pid, perm in enumerate(perms):
             start = hexconv.renumber(case["pts"], perm)
@@ -175,9 +191,9 @@ def run_reorient(ctx, case):
             ctx.evaluated()
             ctx.count("reorient:judged")
             ctx.count("reorient:input-" + cls)
-            tag = f"{cls}#{pid} perm={list(perm)}"
+            tag = f"{cls}#{pid} perm={list(perm)}" + (" (long-lived reorienter)" if shared is not None else "")
             try:
-                ViewpointReorienter(observer, ceiling).reorient(op)
+                (shared or ViewpointReorienter(observer, ceiling)).reorient(op)
             except Exception as err:  # noqa: BLE001  a convex block in general position must be re-oriented
                 ctx.violation(f"reorient:raised:{type(err).__name__}:{cls}-input",
                               f"{tag}: {type(err).__name__}: {err} | {where}")
@@ -291,6 +307,16 @@ def run_queries(ctx, case, mesh, mclass):
                 verts[i].translate(d)
                 pos[i] = np.array(verts[i].position, dtype=float)
             ctx.count("mesh:vertices-moved-between-queries")
+        if case.get("reassemble") and qi == (2 * len(case["queries"])) // 3 and qi > 0:
+            # history: the mesh is back-ported (cleared and assembled again: new Vertex objects) and the SAME finder goes on
+            try:
+                mesh.backport()
+            except Exception as err:  # noqa: BLE001
+                ctx.violation(f"backport-between-queries:raised:{type(err).__name__}", f"{err!r}")
+                return
+            verts = list(mesh.vertices)
+            pos = [np.array(v.position, dtype=float) for v in verts]
+            ctx.count("mesh:re-assembled-between-queries")
         ctx.evaluated()
         if q["q"] == "sphere":
             is_exact = exact and q["type"].startswith("exact") and all(float(x).is_integer() for p in pos for x in p)
@@ -464,7 +490,7 @@ def gen_boxes(rng, mclass=None):
     if mclass != "exact" and rng.random() < 0.4:
         moves = [[rng.random(), [rng.uniform(-0.4, 0.4) * length for _ in range(3)]] for _ in range(rng.randint(1, 3))]
     return {"kind": "boxes", "mclass": mclass, "exact": mclass == "exact", "blocks": blocks, "queries": queries,
-            "merge": rng.random() < 0.3, "moves": moves}
+            "merge": rng.random() < 0.3, "moves": moves, "reassemble": rng.random() < 0.3}
 
 
 def run_boxes(ctx, case):
@@ -607,6 +633,16 @@ def run_round(ctx, case):
     ctx.sample({k: v for k, v in case.items() if k != "queries"})
     finder = RoundSolidFinder(mesh, shape)
     for end_face, (centre, normal, radius) in zip((False, True), ends):
+        if end_face and int(sum(abs(x) for x in pos[0]) * 1e6) % 3 == 0:
+            # history: the mesh is back-ported (new Vertex objects) between the queries for the two end faces
+            try:
+                mesh.backport()
+            except Exception as err:  # noqa: BLE001
+                ctx.violation(f"backport-between-queries:raised:{type(err).__name__}", f"{err!r}")
+                return
+            verts = list(mesh.vertices)
+            pos = [np.array(v.position, dtype=float) for v in verts]
+            ctx.count("mesh:re-assembled-between-queries")
         core, rim, ambiguous = orc.disc_sets(pos, centre, normal, radius)
         which = "end-face" if end_face else "start-face"
         if ambiguous or not core or not rim:
